@@ -1,0 +1,29 @@
+//go:build verif
+
+package kv
+
+import "sort"
+
+// VerifPermute, when set by the simulator, reorders a canonically sorted
+// list in place. site names the call site ("merge-order" for the version
+// list folded at open, "map-order" for the former map iterations).
+var VerifPermute func(site string, keys []string)
+
+func verifShuffle(roots []string) {
+	sort.Strings(roots)
+	if VerifPermute != nil {
+		VerifPermute("merge-order", roots)
+	}
+}
+
+func verifKeys[V any](m map[string]V) []string {
+	keys := make([]string, 0, len(m))
+	for k := range m {
+		keys = append(keys, k)
+	}
+	sort.Strings(keys)
+	if VerifPermute != nil {
+		VerifPermute("map-order", keys)
+	}
+	return keys
+}
